@@ -67,6 +67,7 @@ def units(tier):
             us.append(("insn-arity[%s,%+d]" % (m, d), "unit_compile_insn", dict(mnemonic=m, lazy=False, arity_delta=d)))
     # whole programs: the statement holds wherever a statement stands (repeat body, included / linked file, any block) - contracts/structure.py
     us += structure.units()
+    us += structure.expr_units()
     us += structure.kernel_units()
     return us
 
@@ -257,7 +258,9 @@ def replay_rm(cfg, w, tree):
     text = SHAPE_SPELL[shape].format(r=r, e=num(vals["e"]), a=num(vals["a"]), b=num(vals["b"]), n=num(vals["n"]))
     rel = w.get("rel", 0o1002)
     base = rel - 2 if 0 <= rel - 2 < 65536 and rel % 2 == 0 else 0o1000
-    src = ".link %o\nclr %s\n" % (base, text)
+    fp = bool(cfg.get("fp"))
+    # the floating-point form of the same field: 'tstf <operand>' (170500 + field) instead of 'clr <operand>' (005000 + field)
+    src = ".link %o\n%s %s\n" % (base, "tstf" if fp else "clr", text)
     job = {"kind": "asm", "sources": [src]}
     res = driver.native([job], tree)[0]
     mode = SHAPE_MODE[shape]
@@ -278,7 +281,7 @@ def replay_rm(cfg, w, tree):
         elif shape in ("e", "@e"):
             ext = (vals["e"] - (base + 2) - 2) % 65536
     if ok_in:
-        code = (0o005000 + field).to_bytes(2, "little") + (b"" if ext is None else ext.to_bytes(2, "little"))
+        code = ((0o170500 if fp else 0o005000) + field).to_bytes(2, "little") + (b"" if ext is None else ext.to_bytes(2, "little"))
         exp = ["ok", code.hex()]
     else:
         exp = ["fail"]
